@@ -10,8 +10,8 @@ The check is a list of sub-checks (SUBCHECKS).  A sub-check contributes
 All recorded traces of all sub-checks are cut at their "Init" lines, packed into a few chunks and judged by
 TLC processes running in parallel; the trace specification prints one  @@VIOL <line> <tag>  per failed obligation
 and goes on, so one pass judges everything (known findings do not hide other violations).
-To add the session-level contact obligations: write  sub_contact(ctx, st)  that records ndjson traces with ops
-understood by Trace_Admission (add the new Tr* actions there) and append it to SUBCHECKS.
+sub_contact: session-level contact obligations (real torrent.Session on loopback addresses, harness/c18/contact.go);
+its observations (ops C*) are judged by the TrC* actions of Trace_Admission against the same `rules`.
 """
 import hashlib, json, os, re, shutil, subprocess, threading, time
 from concurrent.futures import ThreadPoolExecutor
@@ -171,7 +171,68 @@ def sub_queue(ctx, st):
     st.add_trace("queue", "q_random", p, 1.2)
 
 
-SUBCHECKS = [sub_design, sub_blocklist, sub_queue]
+def contact_plan(ctx):
+    """Scenarios kind:out:inc:trk:variant (switches of the three Blocklist* config flags; variant = list shape / reload shape)."""
+    base = ["static:1:1:1:0", "static:0:0:0:1", "static:1:0:0:2", "static:0:1:0:0", "static:0:0:1:1",
+            "dup:1:1:1:0", "reload:1:1:1:0", "reload:1:0:0:1", "banned:1:1:1:0", "banq:1:1:1:0"]
+    if ctx.quick():
+        return base
+    more = ["static:%d:%d:%d:%d" % (o, i, t, v) for o in (0, 1) for i in (0, 1) for t in (0, 1) for v in (0, 1, 2)]
+    more += ["dup:1:1:1:1", "dup:0:0:0:2", "reload:1:1:1:2", "reload:1:1:0:3", "banned:0:0:0:1", "banned:1:1:1:2", "banq:0:0:0:1", "banq:1:1:1:2"]
+    return base + more + base[5:]
+
+
+def sub_contact(ctx, st):
+    """Session level: a real torrent.Session on loopback addresses never contacts what it must not (harness/c18/contact.go)."""
+    plan = contact_plan(ctx)
+    nproc = ctx.pick(3, 4)
+    shards = [plan[i::nproc] for i in range(nproc)]
+    settle = ctx.pick(400, 600)
+
+    def work(i, shard):
+        p = ctx.path("raw_contact%d.ndjson" % i)
+        r = ctx.run_drv(st.drv, ["-mode", "contact", "-scenarios", ",".join(shard), "-seed", str(ctx.seed * 100 + i), "-settle", str(settle),
+                                 "-out", p], timeout=60 + 25 * len(shard), check=False)
+        begun = re.findall(r"^BEGIN (\d+) (\S+)$", r.stdout, re.M)
+        ended = set(re.findall(r"^END (\d+)$", r.stdout, re.M))
+        if r.returncode != 0:
+            bad = [b for b in begun if b[0] not in ended]
+            raise vlib.MachineryError("contact driver died (rc=%d) in scenario %s:\n%s" % (r.returncode, bad[:1], r.stderr[-3000:]))
+        return p, shard
+
+    with ThreadPoolExecutor(max_workers=nproc) as ex:
+        outs = [f.result() for f in [ex.submit(work, i, sh) for i, sh in enumerate(shards) if sh]]
+    # keep the scenarios whose positive controls were all observed (CEnd.ok); the others are not judged
+    kept, skipped = [], []
+    for p, shard in outs:
+        cur, k = [], -1
+        for line in open(p):
+            if '"op":"Init"' in line:
+                cur, k = [], k + 1
+            cur.append(line)
+            if '"op":"CEnd"' in line:
+                e = json.loads(line)
+                if e["ok"]:
+                    cur.insert(2, json.dumps({"op": "CNote", "what": "scenario", "scenario": shard[k]}, separators=(",", ":")) + "\n")
+                    kept.append(cur)
+                else:
+                    skipped.append({"scenario": shard[k], "missing": e["missing"]})
+                cur = []
+    ctx.extra["contact_scenarios"] = {"run": len(plan), "judged": len(kept), "not_judged": skipped[:10]}
+    if len(kept) * 3 < len(plan) * 2:
+        raise vlib.MachineryError("contact scenarios: only %d of %d came up (positive controls missing): %s" % (len(kept), len(plan), skipped[:5]))
+    out = ctx.path("tr_contact.ndjson")
+    with open(out, "w") as fh:
+        for sc in kept:
+            fh.writelines(sc)
+            for line in sc:
+                for op in ("CDial", "CAccept", "CAnnounce", "CWebseed", "CBan"):
+                    if '"op":"%s"' % op in line:
+                        ctx.oblig("C18.contact." + op[1:].lower(), 1)
+    st.add_trace("contact", "contact", out, 1.0)
+
+
+SUBCHECKS = [sub_design, sub_blocklist, sub_queue, sub_contact]
 
 
 # ------------------------------------------------------------------------------------------------ judging
@@ -197,7 +258,7 @@ class Seg:
 def segments(ctx, st):
     """Cut every trace file at its "Init" lines ("Reinit" lines stay with their Init)."""
     segs = []
-    nontrivial_ops = ('"op":"Query"', '"op":"Push"', '"op":"Pop"', '"op":"Resolve"', '"op":"Prio"')
+    nontrivial_ops = ('"op":"Query"', '"op":"Push"', '"op":"Pop"', '"op":"Resolve"', '"op":"Prio"', '"op":"CDial"', '"op":"CAccept"', '"op":"CAnnounce"')
     for tr in st.traces:
         cur = None
         sub = None       # sub-trace (Init or Reinit) for the coverage count
@@ -317,6 +378,14 @@ def explain(seg, off, tag):
                 sig += " want=%s ip=%s nrules=%d rules=[%s]" % ("blocked" if want else "free", ipstr(h), len(rules), rtxt)
                 what = "Blocked(%s) = %s but the loaded rules [%s] say %s" % (ipstr(h), a, rtxt, want)
                 break
+    elif e["op"].startswith("C"):
+        ci = next((x for x in hist if x["op"] == "CInit"), {})
+        scn = next((x.get("scenario") for x in hist if x["op"] == "CNote" and x.get("what") == "scenario"), "?")
+        ip = str(e.get("a", "")).split(":")[0]
+        sig += " kind=%s sw=%d%d%d ip=%s via=%s" % (ci.get("kind"), ci.get("out", 0), ci.get("inc", 0), ci.get("trk", 0), ip, e.get("via", "-"))
+        offers = [x.get("a") for x in hist if x["op"] == "CNote" and "offer" in str(x.get("what"))]
+        what = ("%s: the session contacted %s (%s) in scenario %s [rules %s; banned/connected state in the history]; offers so far: %s"
+                % (tag, e.get("a"), e["op"], scn, rtxt, offers[-6:]))
     elif e["op"] == "Panic":
         sig += " in=%s msg=%s" % (e.get("in"), re.sub(r"\d+", "N", str(e.get("msg")))[:120])
         what = "the real code panics in %s: %s (input %s)" % (e.get("in"), e.get("msg"), json.dumps(e.get("arg"))[:200])
@@ -349,6 +418,9 @@ def explain(seg, off, tag):
         k = max([i for i, x in enumerate(h[:-1]) if x["op"] == "Reload" and not x["err"]] or [len(h) - 40])
         h = h[k:]
     detail = {"init": init, "history": h, "rules_in_force": rtxt, "trace": seg.trace["name"]}
+    scn = next((x.get("scenario") for x in hist if x["op"] == "CNote" and x.get("what") == "scenario"), None)
+    if scn:
+        detail["scenario"] = scn
     return sig, what, detail
 
 
@@ -489,6 +561,20 @@ def replay(ctx, st):
     """./check C18 --replay <file>: re-execute the recorded history on the real code and judge it again."""
     rp = json.load(open(ctx.replay))
     d = rp["detail"]
+    if d.get("scenario"):       # a session-level scenario: run it again (3 times), judge the new recordings
+        p = ctx.path("tr_replay.ndjson")
+        drive(st, ["-mode", "contact", "-scenarios", ",".join([d["scenario"]] * 3), "-out", p, "-settle", "600"])
+        st.add_trace("replay", "replay", p, 1.0)
+        segs = segments(ctx, st)
+        viols, dist, gen_, dt, n = judge_chunk(st, 0, {"w": 0, "segs": segs})
+        vlib.log("replay: scenario %s run 3 times, %d failed obligations" % (d["scenario"], len(viols)))
+        seen = set()
+        for seg, off, tag in viols:
+            sig, what, detail = explain(seg, off, tag)
+            if sig not in seen:
+                seen.add(sig)
+                ctx.violation(tag, sig, what, detail)
+        return
     src = ctx.path("replay_in.ndjson")
     vlib.write_ndjson(src, [d["init"]] + d["history"])
     p = ctx.path("tr_replay.ndjson")
